@@ -33,6 +33,9 @@ pub struct HSpec {
     pub text: bool,
     pub comments: bool,
     pub end_tag: bool,
+    /// content-removing / inserting edits applied by the element handler: they must not change who is invoked
+    #[serde(default)]
+    pub edits: Vec<crate::engine::Op>,
 }
 
 #[derive(Clone, Debug, Serialize, Deserialize)]
@@ -43,12 +46,17 @@ pub struct Case5 {
     pub doc: DocDesc,
     pub cuts: Vec<usize>,
     pub esi: bool,
+    /// per-node edits applied by handler 0's element handler (keyed by start tag offset): content removal and
+    /// `on_end_tag` registrations on individual elements
+    #[serde(default)]
+    pub node_ops: Vec<(usize, Vec<crate::engine::Op>)>,
 }
 
 fn config(c: &Case5) -> Config {
     Config {
+        script: c.node_ops.iter().map(|(off, ops)| crate::engine::ScriptEntry { hid: 0, sub: crate::engine::Sub::El, offset: *off, ops: ops.clone() }).collect(),
         esi: c.esi,
-        el: c.hs.iter().map(|h| ElH { selector: h.sel.css(), element: h.element, text: h.text, comments: h.comments, end_tag: h.end_tag, ..Default::default() }).collect(),
+        el: c.hs.iter().map(|h| ElH { selector: h.sel.css(), element: h.element || !h.edits.is_empty(), text: h.text, comments: h.comments, end_tag: h.end_tag, always_el: h.edits.clone(), ..Default::default() }).collect(),
         doc: c.docs.iter().map(|&(doctype, comments, text, end)| DocH { doctype, comments, text, end, ..Default::default() }).collect(),
         ..Default::default()
     }
@@ -69,7 +77,7 @@ pub fn expected(c: &Case5, doc: &Doc, flat: bool) -> Vec<Ev> {
             Kind::Start { .. } => {
                 let ni = node_of_tok[&ti];
                 for (i, h) in c.hs.iter().enumerate() {
-                    if matched[ni][i] && (h.element || h.end_tag) {
+                    if matched[ni][i] && (h.element || h.end_tag || !h.edits.is_empty()) {
                         out.push((K::El, i, tok.start));
                     }
                 }
@@ -82,6 +90,16 @@ pub fn expected(c: &Case5, doc: &Doc, flat: bool) -> Vec<Ev> {
                         for (i, h) in c.hs.iter().enumerate() {
                             if matched[ni][i] && h.end_tag {
                                 evs.push((K::EndTag, i, tok.start));
+                            }
+                        }
+                        // end-tag handlers registered on this very element by the scripted element handler 0
+                        if matched[ni].first().copied().unwrap_or(false) {
+                            if let Some((_, ops)) = c.node_ops.iter().find(|(off, _)| *off == n.start) {
+                                for op in ops {
+                                    if matches!(op, crate::engine::Op::OnEndTag(_)) {
+                                        evs.push((K::EndTag, 0, tok.start));
+                                    }
+                                }
                             }
                         }
                     }
@@ -186,7 +204,7 @@ pub fn check(c: &Case5, doc: &Doc) -> Result<Obs, (String, String)> {
     if got != exp {
         let flat = expected(c, doc, true);
         let key = if got == flat && c.hs.iter().any(|h| h.sel.has_compound_or_nested_not()) { "negation-flattened" } else { "dispatch-differs" };
-        let names: Vec<String> = c.hs.iter().map(|h| format!("{}[el={} text={} comments={} end_tag={}]", h.sel.css(), h.element, h.text, h.comments, h.end_tag)).collect();
+        let names: Vec<String> = c.hs.iter().map(|h| format!("{}[el={} text={} comments={} end_tag={} edits={:?}]", h.sel.css(), h.element, h.text, h.comments, h.end_tag, h.edits)).collect();
         return Err((
             key.into(),
             format!("recorded invocations (A) vs reference scope model (B): {}\n A: {:?}\n B: {:?}\n handlers: {names:?} + document handlers (doctype,comments,text,end) {:?}\n cuts: {:?}\n doc: {}", crate::norm::first_diff(&got, &exp), &got[..got.len().min(14)], &exp[..exp.len().min(14)], c.docs, c.cuts, show(&doc.bytes)),
@@ -224,17 +242,35 @@ impl Prop for C05 {
                 break;
             }
             let esi = ctx.rng.chance(1, 12);
-            let o = structgen::Opts { foreign: ctx.rng.chance(2, 3), max_nodes: 16, esi, nonascii: ctx.rng.chance(1, 3), ..Default::default() };
+            let dense = ctx.rng.chance(1, 3);
+            const DENSE_NAMES: &[&str] = &["div", "span", "p", "b"];
+            let o = if dense {
+                structgen::Opts { foreign: ctx.rng.chance(1, 4), max_nodes: 36, max_depth: 9, esi: false, nonascii: false, weird_attrs: false, names: Some(DENSE_NAMES), close_percent: *ctx.rng.pick(&[30usize, 50, 70]), ..Default::default() }
+            } else {
+                structgen::Opts { foreign: ctx.rng.chance(2, 3), max_nodes: 16, esi, nonascii: ctx.rng.chance(1, 3), ..Default::default() }
+            };
             let doc = structgen::gen_doc(&mut ctx.rng, &o);
             let nh = ctx.rng.range(1, 4);
             let hs: Vec<HSpec> = (0..nh)
                 .map(|_| {
-                    let sel = if ctx.rng.chance(1, 3) {
+                    let sel = if dense && ctx.rng.chance(2, 3) {
+                        selgen::gen_structural(&mut ctx.rng, DENSE_NAMES)
+                    } else if ctx.rng.chance(1, 3) {
                         SelList(vec![selgen::Complex { first: selgen::Compound(vec![if ctx.rng.bool() { selgen::Simple::Universal } else { selgen::Simple::Type((*ctx.rng.pick(selgen::SEL_TYPES)).to_string()) }]), rest: vec![] }])
                     } else {
                         gen_sel(&mut ctx.rng)
                     };
-                    let mut h = HSpec { sel, element: ctx.rng.bool(), text: ctx.rng.bool(), comments: ctx.rng.bool(), end_tag: ctx.rng.bool() };
+                    let mut h = HSpec { sel, element: ctx.rng.bool(), text: ctx.rng.bool(), comments: ctx.rng.bool(), end_tag: ctx.rng.bool(), edits: vec![] };
+                    if ctx.rng.chance(1, 4) {
+                        use crate::engine::{Content, Op};
+                        h.edits.push(match ctx.rng.below(6) {
+                            0 | 1 => Op::SetInner(Content::html("<i>inner</i>")),
+                            2 => Op::Remove,
+                            3 => Op::Replace(Content::text("repl")),
+                            4 => Op::RemoveKeep,
+                            _ => Op::Append(Content::html("<!--app-->")),
+                        });
+                    }
                     if !(h.element || h.text || h.comments || h.end_tag) {
                         h.text = true;
                     }
@@ -244,7 +280,34 @@ impl Prop for C05 {
             let nd = ctx.rng.below(3);
             let docs: Vec<(bool, bool, bool, bool)> = (0..nd).map(|_| (ctx.rng.bool(), ctx.rng.bool(), ctx.rng.bool(), ctx.rng.bool())).collect();
             let cuts = gen::random_cuts(&mut ctx.rng, doc.bytes.len());
-            let case = Case5 { hs, docs, doc_hex: hex(&doc.bytes), doc: describe(&doc), cuts, esi };
+            let mut hs = hs;
+            let mut docs = docs;
+            let mut node_ops = vec![];
+            if ctx.rng.chance(1, 4) {
+                // scripted mode: handler 0 is an element handler on a broad selector; individual elements get content
+                // removal or their own end-tag handler; mostly nothing else is captured (tag-scan mode between tags)
+                use crate::engine::{Content, Op};
+                hs[0] = HSpec { sel: SelList(vec![selgen::Complex { first: selgen::Compound(vec![selgen::Simple::Universal]), rest: vec![] }]), element: true, text: false, comments: false, end_tag: false, edits: vec![] };
+                if ctx.rng.chance(2, 3) {
+                    hs.truncate(1);
+                    docs.clear();
+                }
+                let tree = reftree::build(&doc);
+                for n in &tree.nodes {
+                    if ctx.rng.chance(1, 3) {
+                        let op = match ctx.rng.below(8) {
+                            0 | 1 => Op::SetInner(Content::text("x")),
+                            2 => Op::Remove,
+                            3 => Op::Replace(Content::html("<r></r>")),
+                            4 => Op::RemoveKeep,
+                            _ => Op::OnEndTag(vec![]),
+                        };
+                        node_ops.push((n.start, vec![op]));
+                    }
+                }
+                ctx.count("scripted_per_element_cases");
+            }
+            let case = Case5 { hs, docs, doc_hex: hex(&doc.bytes), doc: describe(&doc), cuts, esi, node_ops };
             ctx.eval();
             match check(&case, &doc) {
                 Ok(o) => {
